@@ -168,11 +168,52 @@ def wlen (proto len : String) : String :=
     | none => "ok"
   | _, _ => "bad-op"
 
+/-- packets of one direction after the real handshake: `<type>:<body>,…` -/
+def parsePkts (s : String) : Option (List (Nat × Bytes)) :=
+  if s == "-" then some [] else
+  parseAll (fun x => match x.splitOn ":" with
+    | [t, b] => match hexNat? t, bytesOfHex b with
+      | some t, some b => some (t, b)
+      | _, _ => none
+    | _ => none) (s.splitOn ",")
+
+/-- one direction after the handshake: every packet with `WritePacket` until the first refused one; then the
+plaintext stream, the index of the refused write, and what the peer reads from it -/
+def hsDir (e : Env) (mode : Mode) (ps : List (Nat × Bytes)) : String × String × String :=
+  let w0 : WState := { n := 2, mode := mode, cipher := if mode.enc then some ([], []) else none }
+  let rec go (i : Nat) (w : WState) : List (Nat × Bytes) → WState × String
+    | [] => (w, "-")
+    | (t, b) :: rest =>
+      match stepW e w (.write true t b) with
+      | .ok w1 => go (i + 1) w1 rest
+      | .werr er => (w, s!"{i}:{er.name}")
+      | .dead => (w, s!"{i}:dead")
+  let r := go 0 w0 ps
+  let plain := r.1.out
+  let res := readLoop (pureSrc e) e (fun _ => []) (plain.length + 2) { n := 2, mode := mode } plain
+  let evs := (res.1.filter (fun ev => match ev with | .packet _ _ => true | _ => false)).map evStr ++
+    [match res.2 with | some er => "e:" ++ er.name | none => "e:fuel"]
+  (hexOfBytes plain, r.2, ",".intercalate evs)
+
+/-- the connection after the real `HandshakeClient`/`HandshakeServer`: negotiated modes and both directions -/
+def hsOp (enc proto cpk spk cor : String) : String :=
+  match proto.toNat?, parsePkts cpk, parsePkts spk with
+  | some pr, some cp, some sp =>
+    if enc != "0" && enc != "1" then "bad-op" else
+    let mode : Mode := { proto := min pr 2, crcC := true, enc := enc == "1" }
+    let head := s!"ok enc={enc} proto={mode.proto} crcc=1"
+    if cor != "-" then head ++ " corrupted" else
+    let c := hsDir realEnv mode cp
+    let s := hsDir realEnv mode sp
+    s!"{head} c2s={c.1} s2c={s.1} cw={c.2.1} sw={s.2.1} sr={c.2.2} cr={s.2.2}"
+  | _, _, _ => "bad-op"
+
 def handle (op : String) (args : List String) : String :=
   match op, args with
   | "conn", [st, script, chunks, cor, _rb, _wb] => conn st script chunks cor
   | "read", [st, modes, stream, chunks, _rb] => readOnly st modes stream chunks
   | "wlen", [p, l] => wlen p l
+  | "hs", [_seed, enc, proto, cpk, spk, _chunk, cor] => hsOp enc proto cpk spk cor
   | _, _ => "bad-op"
 
 end TLVerif.Packet
